@@ -52,6 +52,7 @@ pub struct MDoc {
     age: u64,
     score: Option<i64>,
     tags: Vec<String>,
+    codes: Vec<String>,
     body: String,
     vec: Vec<i32>,
 }
@@ -62,6 +63,7 @@ fn mdoc(d: &SimDoc) -> MDoc {
         age: d.age,
         score: d.score,
         tags: d.tags.clone(),
+        codes: d.codes.clone(),
         body: d.body.clone(),
         vec: d.embedding.iter().map(|x| (x.to_f32() * 16.0) as i32).collect(),
     }
@@ -92,6 +94,7 @@ impl CModel {
                     age: d.age,
                     score: d.score,
                     tags: d.tags.clone(),
+                    codes: d.codes.clone(),
                     body: d.body.clone(),
                     embedding: d.vec.iter().map(|x| anda_db::schema::bf16::from_f32(*x as f32 / 16.0)).collect(),
                 },
@@ -197,7 +200,7 @@ pub fn generate_conc(case_seed: u64, idx: u64, _tier: Tier, flavor: &str) -> Con
     let mut rng = Rng::stream(case_seed, "conc");
     let mut knobs = Knobs::generate(&mut rng);
     if flavor == "c04" {
-        knobs.indexes |= IX_NAME | IX_AGE_SCORE;
+        knobs.indexes |= IX_NAME | IX_AGE_SCORE | IX_CODES;
     }
     let np = rng.range(1, 4) as usize;
     let mut prefix = Vec::new();
@@ -209,6 +212,8 @@ pub fn generate_conc(case_seed: u64, idx: u64, _tier: Tier, flavor: &str) -> Con
     }
     let nc = rng.range(2, if flavor == "c06" { 3 } else { 4 }) as usize;
     let contested_name = rng.below(7) as u8;
+    let contested_code = rng.below(CODES) as u8;
+    let by_code = flavor == "c04" && rng.bool();
     let same_doc = rng.range(1, np as u64);
     let mut clients = Vec::new();
     let mut setext_n: u8 = 0;
@@ -220,8 +225,25 @@ pub fn generate_conc(case_seed: u64, idx: u64, _tier: Tier, flavor: &str) -> Con
                 "c04" => match rng.weighted(&[40, 40, 10, 10]) {
                     0 => {
                         let mut s = DocSpec::generate(&mut rng);
-                        s.name = contested_name;
+                        if by_code {
+                            // contend for one element of the unique array field
+                            s.codes = vec![contested_code];
+                            if rng.bool() {
+                                s.codes.push((contested_code + 1 + rng.below(CODES - 1) as u8) % CODES as u8);
+                                s.codes.sort();
+                            }
+                        } else {
+                            s.name = contested_name;
+                        }
                         DOp::Add(s)
+                    }
+                    1 if by_code => {
+                        let mut c = vec![contested_code];
+                        if rng.bool() {
+                            c.push((contested_code + 1 + rng.below(CODES - 1) as u8) % CODES as u8);
+                            c.sort();
+                        }
+                        DOp::Update { id: rng.range(1, np as u64), fields: vec![FieldUpd::Codes(c)] }
                     }
                     1 => DOp::Update { id: rng.range(1, np as u64), fields: vec![FieldUpd::Name(contested_name)] },
                     2 => DOp::Remove { id: rng.range(1, np as u64) },
@@ -234,7 +256,8 @@ pub fn generate_conc(case_seed: u64, idx: u64, _tier: Tier, flavor: &str) -> Con
                     match rng.weighted(&[22, 30, 14, 14, 12, 8, 6]) {
                         0 => DOp::Add(DocSpec::generate(&mut rng)),
                         1 => {
-                            let f = match rng.below(5) {
+                            let f = match rng.below(6) {
+                                5 => FieldUpd::Codes(gen_codes(&mut rng)),
                                 0 => FieldUpd::Name(rng.below(7) as u8),
                                 1 => FieldUpd::Age(rng.below(4) as u8),
                                 2 => FieldUpd::Body((0..rng.range(1, 3)).map(|_| rng.below(10) as u8).collect()),
@@ -581,7 +604,7 @@ pub fn run_conc(case: &ConcCase, rep: &mut RunReport) -> Result<(), Violation> {
         if retiring {
             coll.set_read_only(false);
             let mark = sim.mut_log_len();
-            let (o, _) = block(exec_on(&coll, &DOp::Add(DocSpec { name: 6, age: 3, score: Some(2), tags: vec![], body: vec![1], vec: [0, 0, 0, 1] }), &vocab));
+            let (o, _) = block(exec_on(&coll, &DOp::Add(DocSpec { name: 6, age: 3, score: Some(2), tags: vec![], body: vec![1], vec: [0, 0, 0, 1], codes: vec![] }), &vocab));
             if !matches!(o, Outcome::Err { .. }) {
                 return Err(violation!("c06.retired-handle-writable", "after {:?} and set_read_only(false) the old handle accepted an add: {o:?}", case.transition));
             }
@@ -850,7 +873,7 @@ pub fn shrink_conc(case: &ConcCase) -> Vec<ConcCase> {
             out.push(c);
         }
     }
-    for bit in [IX_VEC, IX_BODY, IX_AGE_SCORE, IX_TAGS, IX_SCORE, IX_AGE] {
+    for bit in [IX_VEC, IX_BODY, IX_CODES, IX_AGE_SCORE, IX_TAGS, IX_SCORE, IX_AGE] {
         if case.knobs.indexes & bit != 0 {
             let mut c = case.clone();
             c.knobs.indexes &= !bit;
